@@ -181,6 +181,23 @@ def inverse_topology(outer, update, topology, inverse=None, multi_updates=True):
                             assoc_path(
                                 inverse, inner + (child,), child_update)
                         continue
+                    if isinstance(child_update, dict):
+                        # structural keys addressed to the child node
+                        # are routed to it, as the tuple form does
+                        structural = {
+                            key: value
+                            for key, value in child_update.items()
+                            if key in STRUCTURAL_KEYS}
+                        if structural and multi_updates:
+                            inverse = update_in(
+                                inverse,
+                                inner + (child,),
+                                lambda current: deep_merge_multi_update(
+                                    current, structural))
+                        elif structural:
+                            for key, value in structural.items():
+                                assoc_path(
+                                    inverse, inner + (child, key), value)
                     inverse = inverse_topology(
                         inner + (child,),
                         update[child],
